@@ -36,6 +36,10 @@ func NewExecEnv(name string, args ...string) *ExecEnv {
 	}
 	for _, s := range os.Environ() {
 		if i := strings.IndexByte(s[1:], '='); i != -1 {
+			if env.isSpParam(s[:i+1]) || env.isPosParam(s[:i+1]) {
+				// not a variable
+				continue
+			}
 			env.vars[env.keyFor(s[:i+1])] = Var{
 				Name:   s[:i+1],
 				Value:  s[i+2:],
